@@ -302,11 +302,13 @@ fn dump_cfg(r: &MemReader, cfg: &Cfg, tag: &str, out: &mut Vec<String>) {
         lines.push((
             e,
             format!(
-                "{tag}.FUNC entry={e} exit={} labels=[{}] nodes=[{}] defs={}",
+                "{tag}.FUNC entry={e} exit={} labels=[{}] nodes=[{}] defs={} args={} rets={}",
                 idx_of(cfg, &f.exit()),
                 labels.join(","),
                 nodes.iter().map(|x| x.to_string()).collect::<Vec<_>>().join(","),
-                set_str(*f.defs())
+                set_str(*f.defs()),
+                set_str(f.arguments()),
+                set_str(f.returns())
             ),
         ));
     }
